@@ -32,3 +32,6 @@ Definition goal_package : Prop := forall S (P : velem -> option UmlBlob.pv) v p,
 Definition goal_inh : Prop := forall S g (P : velem -> option UmlBlob.pv) v i real, g_names S g -> inh_ok S i = true ->
   P v = Some (top_pv (tree_of_inh i)) -> ve_id v = si_id i ->
   parse_inheritance g P v real = Some (rinh0 S i real).
+Definition goal_assoc : Prop := forall S g (P : velem -> option UmlBlob.pv) v x, g_names S g -> assoc_ok S x = true ->
+  P v = Some (top_pv_c (tree_of_assoc x)) -> ve_id v = sx_id x -> ve_name v = ostr (sx_name x) ->
+  parse_association g P v = Some (rassoc_of S x).
